@@ -281,8 +281,9 @@ class SamplerCore:
         with open(Path(path), "rb") as f:
             d = dill.load(f)
 
-        # Restore state manager
-        self.state.from_dict(d)
+        # Restore state manager (from_dict is a classmethod that builds a new
+        # instance; the live state manager has to be updated in place)
+        self.state.update_from_dict(d)
 
         # Ensure all required keys exist with valid types (backward compatibility)
         # Some older state files may be missing certain keys
